@@ -14,6 +14,7 @@ EXPLANATION = (
     ' [SEND-ATOMIC release-by-owner] every explicit <lock>.release() in send()/connect() is preceded on all paths by the matching acquire of the same invocation (an exception raised before the acquire must not release a lock another sender holds). Assertions are taken as holding: an assert contributes what evaluating its condition can raise, not AssertionError.'
     ' Fifth round: a path through a fault handler is a witness only when no undecided test on it reads something of the client that may stand for the connection state; start / get / put sites that moved into helpers, an attempt or a callback inside a `with` over an unknown context manager, and reads made through helpers are undecided; a helper coroutine runs under the lock when every call (or hand-over as a value) of it does.'
     " Seventh round: [ENC-STATE] (C02's clause) is run here as well: the bytes of a message do not depend on which messages the encoder object encoded before, the sequence counter aside."
+    ' Eighth round: [SEND-ATOMIC] write-under-the-send-lock -- every self.writer.write outside send() and _connect_impl is inside `async with self.<lock>`, or in a private method all of whose call sites are.'
 )
 ASSUMPTIONS = ["CPython ast parser", "asyncio: tasks interleave only at a suspending await", "asyncio.Lock gives mutual exclusion between coroutines",
                "builtin exception hierarchy of the analysing interpreter", "StreamWriter.write does not suspend"]
